@@ -130,6 +130,12 @@ def parent_main(args):
     env.update(PYTHONHASHSEED='0', PYTHONDONTWRITEBYTECODE='1', VERIF_REPO=core.REPO)
     env.pop('CSSUTILS_VERIF_HOOKS', None)
     tmp = tempfile.mkdtemp(prefix='verif-%s-' % prop)
+    # replay files of earlier runs are stale: every run rewrites its own
+    old_rep = os.path.join(EVID_DIR, 'replays', prop)
+    if os.path.isdir(old_rep):
+        import shutil
+
+        shutil.rmtree(old_rep, ignore_errors=True)
     procs = []
     for k in range(nworkers):
         out = os.path.join(tmp, 'w%d.json' % k)
